@@ -4,7 +4,7 @@ TARGET = dict(
           "first access (read/extract/peek/size_linear/scan/find/compare/equal/match) then every handle compared with its byte-vector model through size, extract, read loop, iovec and peek; "
           "non-trivial = a multi-segment handle whose accessor crossed a segment boundary, or an error path taken, or an access right after a cache-moving op; distinct by hash of ops+arguments"),
     assumptions=["byte-vector reference model in the harness", "documented argument domains derived from include/upipe/ubuf_block.h comments", "ASan + exact-size umem areas"],
-    execs=[dict(name="blockstr", harness="harness/C03_blockstr.c", repo=LIBUPIPE, engine=MEMFIX)],
+    execs=[dict(name="blockstr", harness="harness/C03_blockstr.c", repo=LIBUPIPE, engine=MEMFIX, fuzz=dict(quick=(4, 10), thorough=(16, 120)))],
     quick=dict(cases=60000, budget=45), thorough=dict(cases=1500000, budget=600),
 )
 META = dict(
